@@ -918,8 +918,9 @@ def pair_segs(stream, tier):
         pos = newline_positions(stream, 1)
     for c in pos:
         yield (c,), ()
+    near = set(newline_positions(stream, 1))
     for a, b in itertools.combinations(pos, 2):
-        if tier != 'quick' or b - a > 2 * radius:      # quick: only pairs around different LFs
+        if b - a > 2 * radius and a in near and b in near:      # pairs of cuts next to different LFs
             yield (a, b), ()
     for c in (i + 1 for i in range(n - 1) if stream[i:i + 1] == LF):
         yield (c,), (1,)
@@ -963,7 +964,7 @@ def short_atoms(tier):
                b'change m NaN', b'rea\xc3', b'read  m', b'read m\r', b'help x', b'_ident', b'request', b'read x', b'read m',
                b'\xff', b'update']
     if tier == 'thorough':
-        atoms += [b'_', b'read m', b'\xff']
+        atoms += [b'read m']
         singles += [b'read m:target', b'change m:_s "a"', b'change m:_s "\xc3\xa4"', b'activate m', b'logging m "off"',
                     b'describe .', b'change m:target 1', b'read m:value {', b'read m:nosuch', b'deactivate', b'describe',
                     b'logging', b'read m NaN', b'*IDN? x', b'a b c', b'ping \xc3\xa4', b'do m']
@@ -1047,7 +1048,7 @@ def shard_pairs(shard):
                         segs = pair_segs(stream, tier)
                     else:
                         c = len(cat.v[x][1]) + 1
-                        segs = [((c,), ()), ((c - 1,), ()), ((c + 1,), ()), ((c - 1, c + 1), ())]
+                        segs = [((c,), ()), ((c - 1, c + 1), ())]
                     explore_segmentations(rig, stream, base, segs, part,
                                           {'sub': 'stream', 'stream': hexs(stream), 'where': 'two-lines'})
                     if part.states % 1999 == 1:
